@@ -135,13 +135,18 @@ fn obs_json(o: &Obs) -> Value {
 
 /// Compare two step lists: same length, same parameter maps step by step;
 /// literally identical if `literal`.
-fn cmp_steps(what: &str, a: &[String], b: &[String], literal: bool, fails: &mut Vec<Value>) {
+fn cmp_steps(what: &str, a: &[String], b: &[String], literal: bool, ignore: &[&str], fails: &mut Vec<Value>) {
     if a.len() != b.len() {
         fails.push(json!({"what": format!("{what}_len"), "canon": a, "variant": b}));
         return;
     }
     match (maps_of(a), maps_of(b)) {
-        (Ok(ma), Ok(mb)) => {
+        (Ok(mut ma), Ok(mut mb)) => {
+            for m in ma.iter_mut().chain(mb.iter_mut()) {
+                for k in ignore {
+                    m.remove(*k);
+                }
+            }
             if ma != mb {
                 fails.push(json!({"what": format!("{what}_params"), "canon": a, "variant": b}));
                 return;
@@ -158,7 +163,19 @@ fn cmp_steps(what: &str, a: &[String], b: &[String], literal: bool, fails: &mut 
 }
 
 /// The relational comparison of two instantiations
-fn cmp_obs(a: &Obs, b: &Obs, literal: bool, fails: &mut Vec<Value>) {
+/// `ignore`: keys of `given` that are not compared (C17: the PROJ source keys a, rf, k, which the
+/// translation replaces by ellps / k_0; whether overridden occurrences linger as unknown keys is not specified)
+fn without(p: &Value, ignore: &[&str]) -> Value {
+    let mut p = p.clone();
+    if let Some(g) = p.get_mut("given").and_then(|g| g.as_object_mut()) {
+        for k in ignore {
+            g.remove(*k);
+        }
+    }
+    p
+}
+
+fn cmp_obs(a: &Obs, b: &Obs, literal: bool, ignore: &[&str], fails: &mut Vec<Value>) {
     if a.op != b.op {
         fails.push(json!({"what": format!("op_{}_vs_{}", a.op, b.op), "canon_err": a.err, "variant_err": b.err}));
         return;
@@ -170,11 +187,13 @@ fn cmp_obs(a: &Obs, b: &Obs, literal: bool, fails: &mut Vec<Value>) {
     if a.op != "ok" {
         return;
     }
-    cmp_steps("steps", &a.steps, &b.steps, literal, fails);
-    if a.params != b.params {
+    cmp_steps("steps", &a.steps, &b.steps, literal, ignore, fails);
+    let ap: Vec<Value> = a.params.iter().map(|p| without(p, ignore)).collect();
+    let bp: Vec<Value> = b.params.iter().map(|p| without(p, ignore)).collect();
+    if ap != bp {
         // name the first differing field
         let mut detail = json!(null);
-        for (i, (pa, pb)) in a.params.iter().zip(b.params.iter()).enumerate() {
+        for (i, (pa, pb)) in ap.iter().zip(bp.iter()).enumerate() {
             if pa != pb {
                 let mut fields = vec![];
                 if let (Some(oa), Some(ob)) = (pa.as_object(), pb.as_object()) {
@@ -294,7 +313,7 @@ fn run_layout(b: &Value, w: &mut dyn Write, evals: &mut usize, cases: &mut usize
         *evals += 1;
         match (&csteps, guarded(|| vtext.split_into_steps())) {
             (Ok(cs), Ok(vs)) => {
-                cmp_steps("split_into_steps", cs, &vs, literal, &mut fails);
+                cmp_steps("split_into_steps", cs, &vs, literal, &[], &mut fails);
                 for s in &vs {
                     idempotent(s, &mut fails, evals);
                 }
@@ -307,7 +326,7 @@ fn run_layout(b: &Value, w: &mut dyn Write, evals: &mut usize, cases: &mut usize
         }
         let vobs = observe(ctxkind, &v["resources"], v["def"].as_str().unwrap_or(""), &data);
         *evals += vobs.evaluations;
-        cmp_obs(&cobs, &vobs, literal, &mut fails);
+        cmp_obs(&cobs, &vobs, literal, &[], &mut fails);
         if !fails.is_empty() {
             bad += 1;
             writeln!(w, "{}", json!({"id": b["id"], "variant": vi, "text": vtext, "canon": ctext, "subject": subject,
@@ -396,7 +415,7 @@ fn run_proj(b: &Value, w: &mut dyn Write, evals: &mut usize, cases: &mut usize) 
     } else if let Some(reference) = b["ref"].as_str() {
         let robs = observe("plain", &b["resources"], reference, &data);
         *evals += robs.evaluations;
-        cmp_obs(&robs, &pobs, false, &mut fails);
+        cmp_obs(&robs, &pobs, false, &["a", "rf", "k"], &mut fails);
         if let Some(want) = b["ok"].as_bool() {
             if robs.op != "panic" && (robs.op == "ok") != want {
                 fails.push(json!({"what": "reference_op_outcome", "expected_ok": want, "err": robs.err}));
